@@ -200,6 +200,13 @@ func doExplore(t *testing.T, job *Job) {
 		ck.Ops += int64(res.Ops)
 		ck.OpsDone += int64(res.OpsDone)
 		ck.Modes[c.Mode]++
+		if c.Sched.Dense {
+			ck.Probes["runs_with_dense_scheduling"]++
+		}
+		if c.Sched.OldTimers {
+			ck.Probes["runs_with_old_timer_channels"]++
+		}
+		ck.Probes["map_and_object_accesses_monitored"] += res.MapChecks
 		ck.UncontrolledY += res.UncontrolledY
 		if res.MaxParkedNs > ck.MaxParkedNs {
 			ck.MaxParkedNs = res.MaxParkedNs
